@@ -9,6 +9,12 @@ use std::collections::VecDeque;
 use std::panic::{catch_unwind, AssertUnwindSafe};
 use std::sync::Arc;
 
+/// C16 differential: restrict leaves and ops to what exists in every feature set (no io::Cursor, no
+/// chunks_vectored, no Reader), identically in all configurations
+pub static DIGEST_MODE: std::sync::atomic::AtomicBool = std::sync::atomic::AtomicBool::new(false);
+pub fn digest_mode() -> bool {
+    DIGEST_MODE.load(std::sync::atomic::Ordering::Relaxed)
+}
 pub const NKINDS: u8 = 14;
 pub const KIND_NAMES: [&str; 14] = [
     "slice",
@@ -207,6 +213,7 @@ fn build_leaf_inner(kind: u8, data: &[u8], pre: u8, arena: &mut Arena) -> (Node,
     let k = kind % NKINDS;
     #[cfg(not(feature = "bstd"))]
     let k = if (8..=10).contains(&k) { 0 } else { k };
+    let k = if digest_mode() && (8..=10).contains(&k) { 0 } else { k };
     match k {
         0 => (Node::Slice(arena.stat(data)), data.to_vec()),
         1 => (Node::Bytes(Bytes::from(data.to_vec())), data.to_vec()),
@@ -413,6 +420,7 @@ pub struct BInterp<'a> {
     pub trace: Option<Vec<String>>,
     pub ended: bool,
     pub arena: Arena,
+    pub dg: u64,
 }
 
 fn viol(v: &mut Vec<BViol>, prop: &'static str, oracle: &'static str, detail: String, step: usize) {
@@ -433,7 +441,7 @@ impl<'a> BInterp<'a> {
     pub fn new(spec: &Spec, st: &'a mut BStats, trace: bool) -> Self {
         let mut arena = Arena::default();
         let (n, m) = build(spec, &mut arena);
-        let mut it = BInterp { root: Some(n), model: m, viols: Vec::new(), flags: BFlags::default(), st, step: 0, trace: if trace { Some(vec![format!("tree = {}", spec.describe())]) } else { None }, ended: false, arena };
+        let mut it = BInterp { root: Some(n), model: m, viols: Vec::new(), flags: BFlags::default(), st, step: 0, trace: if trace { Some(vec![format!("tree = {}", spec.describe())]) } else { None }, ended: false, arena, dg: 0xcbf29ce484222325 };
         it.classify(spec);
         it
     }
@@ -492,6 +500,12 @@ impl<'a> BInterp<'a> {
         let s = self.step;
         viol(&mut self.viols, prop, oracle, detail, s);
     }
+    #[inline]
+    pub fn mix(&mut self, x: u64) {
+        self.dg ^= x;
+        self.dg = self.dg.wrapping_mul(0x100000001b3);
+        self.dg ^= self.dg >> 29;
+    }
 
     /// observation + structural walk after every op
     pub fn observe(&mut self) {
@@ -507,6 +521,15 @@ impl<'a> BInterp<'a> {
             }
         };
         let mut bad: Vec<(&'static str, &'static str, String)> = Vec::new();
+        {
+            let ch = root.chunk();
+            let mut h = rem as u64 ^ ((ch.len() as u64) << 40);
+            for &b in ch.iter().take(32) {
+                h = h.wrapping_mul(31).wrapping_add(b as u64);
+            }
+            self.dg ^= h;
+            self.dg = self.dg.wrapping_mul(0x100000001b3);
+        }
         if rem != mrem {
             bad.push(("C09", "remaining", format!("remaining()={} but {} bytes are left in the sequence", rem, mrem)));
         }
@@ -537,7 +560,9 @@ impl<'a> BInterp<'a> {
         let mat = rest.len(); // materialised prefix of the sequence (all of it unless a leaf has virtual filler)
         let chunk = self.model.first_fragment().min(rem);
         let code = code % 21;
+        let code = if digest_mode() && matches!(code, 2 | 12 | 13 | 14) { 0 } else { code };
         self.st.ops[code as usize] += 1;
+        self.mix(code as u64);
         match code {
             0 => {}
             1 => {
@@ -917,6 +942,7 @@ impl<'a> BInterp<'a> {
     }
     /// common handling of a consuming op: n <= rem must succeed and consume n; n > rem must panic
     fn consumed_p(&mut self, n: usize, rem: usize, chunk: usize, panicked: bool, what: &'static str, prop: &'static str) {
+        self.mix((n as u64).wrapping_mul(2) | panicked as u64);
         if n <= rem {
             if panicked {
                 self.v(prop, "unexpected-panic", format!("{}({}) panicked with {} bytes remaining", what, n, rem));
